@@ -18,11 +18,13 @@ import (
 	"math/rand"
 	"sort"
 	"strconv"
+	"strings"
 	"sync"
 	"testing"
 	"time"
 
 	"github.com/prometheus/prometheus/model/labels"
+	"github.com/prometheus/prometheus/storage"
 	"github.com/prometheus/prometheus/tsdb"
 	"github.com/prometheus/prometheus/tsdb/chunkenc"
 	"go.uber.org/atomic"
@@ -75,8 +77,6 @@ type world struct {
 	shape string
 	reps  []replica
 }
-
-var labelNames = map[string]string{"r": "replica", "s": "rule_replica"}
 
 func parseWorld(c vt.Case) world {
 	w := world{step: vt.Int64(c["step"]), shape: vt.Str(c["shape"])}
@@ -160,13 +160,19 @@ type config struct {
 	tsdb   bool     // one real TSDB + TSDBStore per replica instead of fake stores
 	fail   string   // "" | "open" | "recv": an additional store that fails
 	tight  bool     // stores advertise their real time range (store pruning can apply)
+	sel    int      // > 0: store matchers select only store-<sel> (storeDebugMatchers on __address__)
+	down   int      // > 0: store-<down> holds its data but fails when the stream is opened
+	fn     string   // select hints: function ("" = nil hints)
+	rng    int64    // select hints: range in ms
+	maxres int64    // querier's max source resolution in ms
 }
 
 func parseConfig(c vt.Case) config {
 	m := vt.Map(c["cfg"])
 	cfg := config{dedup: vt.Bool(m["dedup"]), rls: vt.Strs(m["rls"]), lo: vt.Int64(m["lo"]), hi: vt.Int64(m["hi"]),
 		pr: vt.Bool(m["pr"]), retr: vt.Str(m["retr"]), frame: vt.Int(m["frame"]), batch: vt.Int(m["batch"]),
-		tsdb: vt.Bool(m["tsdb"]), fail: vt.Str(m["fail"]), tight: vt.Bool(m["tight"])}
+		tsdb: vt.Bool(m["tsdb"]), fail: vt.Str(m["fail"]), tight: vt.Bool(m["tight"]),
+		sel: vt.Int(m["sel"]), down: vt.Int(m["down"]), fn: vt.Str(m["fn"]), rng: vt.Int64(m["rng"]), maxres: vt.Int64(m["maxres"])}
 	for _, b := range vt.List(m["strip"]) {
 		cfg.strip = append(cfg.strip, vt.Bool(b))
 	}
@@ -175,7 +181,13 @@ func parseConfig(c vt.Case) config {
 
 func (c config) toMap() map[string]any {
 	return map[string]any{"dedup": c.dedup, "rls": c.rls, "strip": c.strip, "lo": c.lo, "hi": c.hi, "pr": c.pr,
-		"retr": c.retr, "frame": c.frame, "batch": c.batch, "tsdb": c.tsdb, "fail": c.fail, "tight": c.tight}
+		"retr": c.retr, "frame": c.frame, "batch": c.batch, "tsdb": c.tsdb, "fail": c.fail, "tight": c.tight,
+		"sel": c.sel, "down": c.down, "fn": c.fn, "rng": c.rng, "maxres": c.maxres}
+}
+
+// inScope: the store takes part in the query and answers (ReadPath!Scoped).
+func (c config) inScope(st int) bool {
+	return (c.sel == 0 || c.sel == st) && c.down != st
 }
 
 func (c config) effectiveRL() map[string]bool {
@@ -378,6 +390,9 @@ func runCase(t *testing.T, w world, cfg config) (res runResult) {
 				strip = cfg.strip[st-1]
 			}
 			f := &fakeStore{name: fmt.Sprintf("store-%d", st), w: &w, st: st, strip: strip, frame: cfg.frame}
+			if cfg.down == st {
+				f.fail = "open"
+			}
 			fakes = append(fakes, f)
 			mint, maxt := int64(math.MinInt64), int64(math.MaxInt64)
 			if cfg.tight {
@@ -397,16 +412,25 @@ func runCase(t *testing.T, w world, cfg config) (res runResult) {
 	if cfg.retr == "lazy" {
 		retr = store.LazyRetrieval
 	}
+	// no frame timeout, generous select timeout: no verdict may depend on the machine being fast
 	proxy := store.NewProxyStore(nil, nil, func() []store.Client { return clients }, component.Query, labels.EmptyLabels(),
-		30*time.Second, retr, store.WithLazyRetrievalMaxBufferedResponsesForProxy(1+cfg.batch))
-	qc := query.NewQueryableCreator(nil, nil, proxy, 2, 60*time.Second, dedup.AlgorithmPenalty, cfg.batch)
-	q, err := qc(cfg.dedup, cfg.rls, nil, 0, cfg.pr, false, nil, query.NoopSeriesStatsReporter).Querier(baseT+cfg.lo, baseT+cfg.hi)
+		0, retr, store.WithLazyRetrievalMaxBufferedResponsesForProxy(1+cfg.batch))
+	qc := query.NewQueryableCreator(nil, nil, proxy, 2, 15*time.Minute, dedup.AlgorithmPenalty, cfg.batch)
+	var storeMatchers [][]*labels.Matcher
+	if cfg.sel > 0 {
+		storeMatchers = [][]*labels.Matcher{{labels.MustNewMatcher(labels.MatchEqual, "__address__", fmt.Sprintf("store-%d", cfg.sel))}}
+	}
+	var hints *storage.SelectHints
+	if cfg.fn != "" {
+		hints = &storage.SelectHints{Start: baseT + cfg.lo, End: baseT + cfg.hi, Func: cfg.fn, Range: cfg.rng}
+	}
+	q, err := qc(cfg.dedup, cfg.rls, storeMatchers, cfg.maxres, cfg.pr, false, nil, query.NoopSeriesStatsReporter).Querier(baseT+cfg.lo, baseT+cfg.hi)
 	if err != nil {
 		res.err = "querier: " + err.Error()
 		return res
 	}
 	defer q.Close()
-	ss := q.Select(context.Background(), false, nil, labels.MustNewMatcher(labels.MatchEqual, "__name__", "m"))
+	ss := q.Select(context.Background(), false, hints, labels.MustNewMatcher(labels.MatchEqual, "__name__", "m"))
 	res.series = []any{}
 	for ss.Next() {
 		s := ss.At()
@@ -429,6 +453,9 @@ func runCase(t *testing.T, w world, cfg config) (res runResult) {
 	}
 	if ss.Err() != nil {
 		res.err = "select: " + ss.Err().Error()
+	}
+	if strings.Contains(res.err, "deadline") || strings.Contains(res.err, "failed to wait for turn") {
+		t.Fatalf("timing problem, not an observation: %s", res.err) // exit 2, never a verdict
 	}
 	res.warns = len(ss.Warnings())
 	res.reqs = []any{}
@@ -457,7 +484,7 @@ func tsdbClient(t *testing.T, w world, r *replica, cfg config) (store.Client, fu
 	opts.MaxBlockDuration = opts.MinBlockDuration
 	db, err := tsdb.Open(t.TempDir(), nil, nil, opts, nil)
 	if err != nil {
-		panic(err)
+		t.Fatalf("harness setup (not an observation): %v", err)
 	}
 	intb, extb := labels.NewBuilder(labels.EmptyLabels()), labels.NewBuilder(labels.EmptyLabels())
 	r.lbls.Range(func(l labels.Label) {
@@ -471,17 +498,17 @@ func tsdbClient(t *testing.T, w world, r *replica, cfg config) (store.Client, fu
 	il := intb.Labels()
 	for i, s := range r.samples {
 		if _, err := app.Append(0, il, baseT+s.t, float64(s.v)); err != nil {
-			panic(err)
+			t.Fatalf("harness setup (not an observation): %v", err)
 		}
 		if i%500 == 499 {
 			if err := app.Commit(); err != nil {
-				panic(err)
+				t.Fatalf("harness setup (not an observation): %v", err)
 			}
 			app = db.Appender(context.Background())
 		}
 	}
 	if err := app.Commit(); err != nil {
-		panic(err)
+		t.Fatalf("harness setup (not an observation): %v", err)
 	}
 	ext := extb.Labels()
 	ts := store.NewTSDBStore(nil, db, component.Receive, ext)
@@ -508,70 +535,92 @@ func inKFClass(w world, cfg config) bool {
 	if len(rl) == 0 || cfg.tsdb {
 		return false
 	}
-	groups := map[string][]*replica{}
+	type chunk struct {
+		min, max int64
+		key      string
+		ss       []sample
+	}
+	type member struct {
+		visible []sample
+		chunks  []chunk
+	}
+	groups := map[string][]member{}
 	for i := range w.reps {
-		k := stripLbls(w.reps[i].lbls, rl)
-		groups[k] = append(groups[k], &w.reps[i])
+		r := &w.reps[i]
+		var m member
+		seenPos := map[int]bool{}
+		for _, c := range r.spec.chunks {
+			if !cfg.inScope(c.st) {
+				continue
+			}
+			ss := r.samples[c.lo-1 : c.hi]
+			m.chunks = append(m.chunks, chunk{ss[0].t, ss[len(ss)-1].t, fmt.Sprint(ss), ss})
+			for p := c.lo; p <= c.hi; p++ {
+				seenPos[p] = true
+			}
+		}
+		if len(m.chunks) == 0 {
+			continue
+		}
+		for p := 1; p <= len(r.samples); p++ {
+			if seenPos[p] {
+				m.visible = append(m.visible, r.samples[p-1])
+			}
+		}
+		k := stripLbls(r.lbls, rl)
+		groups[k] = append(groups[k], m)
+	}
+	inRange := func(ss []sample) string {
+		var out []sample
+		for _, x := range ss {
+			if x.t >= cfg.lo && x.t <= cfg.hi {
+				out = append(out, x)
+			}
+		}
+		return fmt.Sprint(out)
 	}
 	for _, g := range groups {
 		ident := true
-		for _, r := range g[1:] {
-			if len(r.samples) != len(g[0].samples) {
+		for _, m := range g[1:] {
+			if fmt.Sprint(m.visible) != fmt.Sprint(g[0].visible) {
 				ident = false
-				break
-			}
-			for i := range r.samples {
-				if r.samples[i] != g[0].samples[i] {
-					ident = false
-				}
 			}
 		}
 		if !ident {
 			continue
 		}
-		// distinct chunks (identical replicas: a chunk is identified by its position range) overlapping the range
-		type iv struct{ lo, hi int }
-		seen := map[iv]bool{}
-		var chs []iv
-		for _, r := range g {
-			for _, c := range r.spec.chunks {
-				if r.samples[c.hi-1].t < cfg.lo || r.samples[c.lo-1].t > cfg.hi {
+		// distinct chunks (by content) that overlap the range, ordered by (min, max)
+		seen := map[string]bool{}
+		var chs []chunk
+		for _, m := range g {
+			for _, c := range m.chunks {
+				if c.max < cfg.lo || c.min > cfg.hi || seen[c.key] {
 					continue
 				}
-				if !seen[iv{c.lo, c.hi}] {
-					seen[iv{c.lo, c.hi}] = true
-					chs = append(chs, iv{c.lo, c.hi})
-				}
+				seen[c.key] = true
+				chs = append(chs, c)
 			}
 		}
 		if len(chs) == 0 {
 			continue
 		}
 		sort.Slice(chs, func(i, j int) bool {
-			if chs[i].lo != chs[j].lo {
-				return chs[i].lo < chs[j].lo
+			if chs[i].min != chs[j].min {
+				return chs[i].min < chs[j].min
 			}
-			return chs[i].hi < chs[j].hi
+			return chs[i].max < chs[j].max
 		})
-		// first chain of the first-fit split, concatenated
-		covered := map[int]bool{}
-		last := chs[0]
-		for p := last.lo; p <= last.hi; p++ {
-			covered[p] = true
-		}
+		// first chain of the first-fit split, concatenated like chunkSeriesIterator
+		chain := append([]sample{}, chs[0].ss...)
+		lastMax := chs[0].max
 		for _, c := range chs[1:] {
-			if last.hi < c.lo {
-				for p := c.lo; p <= c.hi; p++ {
-					covered[p] = true
-				}
-				last = c
+			if lastMax < c.min {
+				chain = append(chain, c.ss...)
+				lastMax = c.max
 			}
 		}
-		for p := 1; p <= len(g[0].samples); p++ {
-			s := g[0].samples[p-1]
-			if s.t >= cfg.lo && s.t <= cfg.hi && !covered[p] {
-				return true
-			}
+		if inRange(chain) != inRange(g[0].visible) {
+			return true
 		}
 	}
 	return false
@@ -611,6 +660,32 @@ func randomConfig(rnd *rand.Rand, w world, dedupOn bool) config {
 		if !dedupOn {
 			cfg.rls = []string{}
 		}
+	}
+	switch rnd.Intn(10) {
+	case 0:
+		cfg.fail = "open"
+	case 1:
+		cfg.fail = "recv"
+	case 2:
+		if n >= 2 {
+			cfg.sel = 1 + rnd.Intn(n)
+		}
+	case 3:
+		if n >= 2 {
+			cfg.down = 1 + rnd.Intn(n)
+		}
+	case 4:
+		if n >= 2 {
+			cfg.sel, cfg.down = 1+rnd.Intn(n), 1+rnd.Intn(n)
+		}
+	}
+	if cfg.down > 0 {
+		cfg.tight = false // a pruned store is not queried and cannot fail
+	}
+	if rnd.Intn(4) == 0 {
+		cfg.maxres = []int64{0, 300_000, 3_600_000}[rnd.Intn(3)]
+		cfg.fn = []string{"max_over_time", "delta", "deriv", "avg_over_time"}[rnd.Intn(4)]
+		cfg.rng = []int64{0, 60_000, 400_000, 10_000_000}[rnd.Intn(4)]
 	}
 	if rnd.Intn(3) == 0 {
 		m := maxPt(w)
@@ -724,7 +799,7 @@ func TestC04(t *testing.T) {
 			wc := randomWorld(rnd, 400, true)
 			w := parseWorld(vt.Normalize(wc))
 			cfg := randomConfig(rnd, w, i%2 == 0)
-			cfg.tsdb = true
+			cfg.tsdb, cfg.sel, cfg.down = true, 0, 0
 			emit(wc, cfg)
 		}
 	}
@@ -752,7 +827,7 @@ func TestC04(t *testing.T) {
 			total += len(r.samples)
 		}
 		return vt.Event{"world": worldEvent(w), "cfg": cfg.toMap(), "part": vt.Str(c["part"]),
-			"drift": !cfg.tsdb && cfg.fail == "" && total <= 60,
+			"drift": !cfg.tsdb && total <= 60, "nstores": nstores(w),
 			"series": res.series, "err": res.err, "warns": res.warns, "reqs": res.reqs, "queried": res.queried}
 	})
 }
